@@ -257,7 +257,7 @@ protected:
       for (auto p : exp) {
         Wt coeff(ntow::convert(p.first, overflow));
         if (overflow) {
-          continue;
+          goto assign_ub_finish;
         }
         if (coeff < Wt(0)) {
           // Can't do anything with negative coefficients.
@@ -266,7 +266,7 @@ protected:
             goto assign_ub_finish;
           exp_ub += ntow::convert(*(y_lb.number()), overflow) * coeff;
           if (overflow) {
-            continue;
+            goto assign_ub_finish;
           }
         } else {
           variable_t y(p.second);
@@ -278,7 +278,7 @@ protected:
           } else {
             Wt ymax(ntow::convert(*(y_ub.number()), overflow));
             if (overflow) {
-              continue;
+              goto assign_ub_finish;
             }
             exp_ub += ymax * coeff;
             ub_terms.push_back({y, ymax});
@@ -309,7 +309,7 @@ protected:
     for (auto p : exp) {
       Wt coeff(ntow::convert(p.first, overflow));
       if (overflow) {
-        continue;
+        goto assign_lb_finish;
       }
       if (coeff < Wt(0)) {
         // Again, can't do anything with negative coefficients.
@@ -318,7 +318,7 @@ protected:
           goto assign_lb_finish;
         exp_lb += (ntow::convert(*(y_ub.number()), overflow)) * coeff;
         if (overflow) {
-          continue;
+          goto assign_lb_finish;
         }
       } else {
         variable_t y(p.second);
@@ -330,7 +330,7 @@ protected:
         } else {
           Wt ymin(ntow::convert(*(y_lb.number()), overflow));
           if (overflow) {
-            continue;
+            goto assign_lb_finish;
           }
           exp_lb += ymin * coeff;
           lb_terms.push_back({y, ymin});
@@ -380,7 +380,7 @@ protected:
     for (auto p : exp) {
       Wt coeff(ntow::convert(p.first, overflow));
       if (overflow) {
-        continue;
+        return;
       }
       if (coeff > Wt(0)) {
         variable_t y(p.second);
@@ -393,7 +393,7 @@ protected:
         } else {
           Wt ymin(ntow::convert(*(y_lb.number()), overflow));
           if (overflow) {
-            continue;
+            return;
           }
           // Coeff is negative, so it's still add
           exp_ub -= ymin * coeff;
@@ -410,7 +410,7 @@ protected:
         } else {
           Wt ymax(ntow::convert(*(y_ub.number()), overflow));
           if (overflow) {
-            continue;
+            return;
           }
           exp_ub -= ymax * coeff;
           neg_terms.push_back({{-coeff, y}, ymax});
